@@ -358,10 +358,16 @@ class Transfer:
         return snapshot
 
     def _remotely_queue_task_complete(self, task: asyncio.Task):
-        self._remotely_queue_task = None
+        # A new task can already have been created before the done callback of
+        # the previous task is called
+        if self._remotely_queue_task is task:
+            self._remotely_queue_task = None
 
     def _transfer_task_complete(self, task: asyncio.Task):
-        self._transfer_task = None
+        # A new task can already have been created before the done callback of
+        # the previous task is called
+        if self._transfer_task is task:
+            self._transfer_task = None
 
     def _transfer_progress_callback(self, data: bytes):
         self.bytes_transfered += len(data)
